@@ -1636,6 +1636,15 @@ fn skel_programs(v: &mut Vec<Prog>, thorough: bool) {
              json!({"xs": xs}), json!({"loops": [["xs", 0], ["xs", 0, "truthy"]], "fails": [], "conds": [["truthy", "xs", 1]]}));
         add2(format!("skel:filter-else:{li}"), "{% for x in xs if x %}[{{ x }}]{% else %}nothing{{ 1 }}{% endfor %}",
              json!({"xs": xs}), json!({"loops": [["xs", 0], ["xs", 0, "truthy"]], "fails": [], "conds": [["truthy", "xs", 1], ["none-truthy", "xs", 0]]}));
+        // `continue` at the top level of a loop body (the jump to the Iterate stands in for the back jump)
+        add2(format!("skel:continue:{li}"), "{% for x in xs %}a{% if x %}b{% continue %}{% endif %}c{{ x }}{% if ys %}d{% endif %}{% endfor %}!",
+             json!({"xs": xs, "ys": if li % 2 == 0 { json!([1]) } else { json!([]) }}),
+             json!({"loops": [["xs", 0]], "fails": [], "conds": [["truthy", "xs", 1], ["truthy-of", "ys", "xs", 1]]}));
+        add2(format!("skel:continue-rem:{li}"), "{% for x in xs %}{% if x %}{% continue %}{% endif %}{{ 7 % x }}{% endfor %}",
+             json!({"xs": xs}), json!({"loops": [["xs", 0]], "fails": [["xs", 1]], "conds": [["truthy", "xs", 1]]}));
+        // `break` at the top level of a loop body: the loop ends there, without the Iterate that finds the end
+        add2(format!("skel:break:{li}"), "{% for x in xs %}a{% if x %}b{% break %}{% endif %}c{{ x }}{% endfor %}!{{ 1 }}",
+             json!({"xs": xs}), json!({"loops": [["xs", 0, "until-truthy"]], "fails": [], "conds": [["truthy", "xs", 1], ["none-truthy", "xs", 0]]}));
         add2(format!("skel:rem:{li}"), "{% for x in xs %}{{ 7 % x }};{% endfor %}done{{ 1 }}",
              json!({"xs": xs}), json!({"loops": [["xs", 0]], "fails": [["xs", 1]], "conds": []}));
         // the divisor of the first side comes from another list: it fails only where that side is taken
